@@ -132,6 +132,8 @@ struct Shadow {
 #[derive(Clone, Debug)]
 pub struct Image {
     pub point: u64,
+    /// scheduler event number at capture (to know which overlapping requests had returned / started)
+    pub stamp: u64,
     pub req: i64,
     pub kind: &'static str,
     pub at_call: String,
@@ -359,8 +361,10 @@ fn capture(s: &mut VfsState, at_call: &str) {
             }
         }
     }
+    let stamp = sched::seq_now();
     s.images.push(Image {
         point,
+        stamp,
         req: s.cur_req,
         kind: "process_crash",
         at_call: at_call.to_string(),
@@ -440,6 +444,7 @@ fn capture(s: &mut VfsState, at_call: &str) {
         }
         s.images.push(Image {
             point,
+            stamp,
             req: s.cur_req,
             kind: "power_loss",
             at_call: at_call.to_string(),
